@@ -14,17 +14,17 @@ DETECTION = {
  "S08": ("C12", "quick", "level 1: task permutation with 2 workers on project contract (two contracts); needed the H1 shim to offer try_for_each_with (build failed before) and a second contract in the template"),
  "S09": ("C12", "quick", "level 1: project errors (ambiguous impl + explicit use in another module), prefix analyses the other module first; missed before the errors project existed"),
  "S10": ("C13", "quick", "insert a line above an item with diagnostics, query, compare: stale line/column"),
- "S11": ("C13", "thorough", "swap_adjacent_lines of two struct members in one edit: Sierra keeps the old member order; missed before the adjacent-swap edit kinds existed (then 2 of 3 seeds with 96 histories); quick caught it with 64 histories and the default seed for a while; after the corpus grew (18 projects share the histories) it is thorough that reports it (first batch)"),
+ "S11": ("C13", "quick", "(quick since it runs 256 histories; thorough only while quick ran 48-128) swap_adjacent_lines of two struct members in one edit: Sierra keeps the old member order; missed before the adjacent-swap edit kinds existed (then 2 of 3 seeds with 96 histories); quick caught it with 64 histories and the default seed for a while; after the corpus grew (18 projects share the histories) it is thorough that reports it (first batch)"),
  "S12": ("C13", "quick", "disk write under an override, unset: incremental database keeps the first-read content"),
  "S13": ("C03", "quick", "generated downcast instantiation (below-only, positive lower bound) + flipped TestLessThan"),
  "S14": ("C03", "quick", "missed at first (quick and 240 s thorough): no target range ending exactly at 2^128-1; caught after the generator draws half of its endpoints from the switch values (0, 2^128-1, 2^128, signed bounds) and bounded.cairo got dc_felt_upper_at_rc_bound"),
  "S15": ("C03", "quick", "thorough only at first; quick after the generator got standard integer sources and bounded.cairo got dc_i8_below_only_neg"),
  "S16": ("C13", "quick", "missed at first (no item with a deprecated/unstable note, no edit inside string literals); caught after basic/src/util.cairo got #[deprecated(note)] / #[unstable(note)] items used from lib.cairo and the edit kind edit_string_literal"),
- "S17": ("C13", "thorough", "missed at first; the check can see it (manual history: move one space inside array![..] around an undefined name => stale column) but the default mix rarely produced that edit; after shift_space_in_line (double weight, prefers macro-call lines, string-literal aware), macro-error lines in the errors project and the small macros project, thorough reports it in its first batch (96 histories of <= 30 steps); the 48 short histories of quick still miss it"),
+ "S17": ("C13", "quick", "(quick since it runs 256 histories; thorough only while quick ran 48-128) missed at first; the check can see it (manual history: move one space inside array![..] around an undefined name => stale column) but the default mix rarely produced that edit; after shift_space_in_line (double weight, prefers macro-call lines, string-literal aware), macro-error lines in the errors project and the small macros project, thorough reports it in its first batch (96 histories of <= 30 steps); the 48 short histories of quick still miss it"),
  "S18": ("C13", "quick", "declare_new_module / swap_adjacent_items put a mod line above another one: module order follows intern ids"),
  "S19": ("C12", "quick", "level 1 (2 workers, no prefix) and level 2: the warm-up task raises the shared flag before the reporter runs, lowering diagnostics of the errors project disappear"),
  "S21": ("C13", "quick", "missed at first (no user-defined macros in any template); caught after the usermacros project (item-level macros with expose!, one expansion with a type error): change_literal inside a macro rule / comment lines above a macro call"),
- "S22": ("C13", "thorough", "missed at first (pub toggled only at item level, members on separate lines); after toggle_pub learned member-level toggling and usermacros/src/points.cairo got one-line structs read from another module, thorough reports it (E2059 member not visible kept / missing); the first thorough run instead tripped over a bug of MY harness (fresh-reference memo keyed without the project identity) - see DESIGN 12.10"),
+ "S22": ("C13", "quick", "(quick since it runs 256 histories; thorough only while quick ran 48-128) missed at first (pub toggled only at item level, members on separate lines); after toggle_pub learned member-level toggling and usermacros/src/points.cairo got one-line structs read from another module, thorough reports it (E2059 member not visible kept / missing); the first thorough run instead tripped over a bug of MY harness (fresh-reference memo keyed without the project identity) - see DESIGN 12.10"),
  "S23": ("C13", "quick", "any rename / item insertion after a query"),
  "S24": ("C03", "quick", "generated bounded_int_constrain instantiation with a negative boundary (and bounded.cairo::constrain_neg) + flipped TestLessThanOrEqual"),
  "S25": ("C03", "quick", "bounded.cairo::dc_i8_above_only / generated above-only downcasts with a negative lower bound + flipped hint"),
@@ -32,8 +32,8 @@ DETECTION = {
  "S27": ("C12", "quick", "thorough only at first (the starknet cairo_level_tests corpus has several circuits); quick since the circuits project (3 circuit descriptors): CASM differs with the H2 hash seed, reproducibly"),
  "S28": ("C12", "quick", "missed at first (no executables in the corpus); caught after the executables project (same-named #[executable] functions in three modules, executable plugin enabled through a marker in cairo_project.toml)"),
  "S29": ("C12", "quick", "std HashSet seeded by the OS: not under the H2 seam. First run: the thorough self-test called it a harness error. Now the errors project has a method-not-found error with candidates from two crates; level 1 reports the difference (via the re-executed known-finding replay, whose extra differing entry flow.cairo:E0002 the list does not explain) and replays retry up to 10 fresh processes because such a difference shows in about half of them"),
- "S30": ("C13", "thorough", "missed at first (no edit flips an attribute argument); the oracle sees it (manual 3-op history: #[inline(always)] -> #[inline(never)] on pipeline::hashing::small gives stale Sierra); caught by thorough after the edit kind change_attribute (double weight), inline attributes in three templates and 'gentle' histories that stay near compiling programs"),
- "S31": ("C13", "thorough", "comment/blank line above a function with a use-after-move: the notes of the lowering diagnostic keep the old line:column"),
+ "S30": ("C13", "quick", "(quick since it runs 256 histories; thorough only while quick ran 48-128) missed at first (no edit flips an attribute argument); the oracle sees it (manual 3-op history: #[inline(always)] -> #[inline(never)] on pipeline::hashing::small gives stale Sierra); caught by thorough after the edit kind change_attribute (double weight), inline attributes in three templates and 'gentle' histories that stay near compiling programs"),
+ "S31": ("C13", "quick", "(quick since it runs 256 histories; thorough only while quick ran 48-128) comment/blank line above a function with a use-after-move: the notes of the lowering diagnostic keep the old line:column"),
  "S32": ("C13", "quick", "missed at first: the only recursive types were constructed and matched elsewhere, so changing them broke the build and the Sierra was never compared; caught after pass-through-only recursive enums (pipeline::recursive::Chain/Rose), the edit kind add_variant_or_member and gentle histories"),
  "S33": ("C12", "quick", "missed at first (no two destructors meeting at one program point); caught after pipeline got dtypes/uses_da/uses_db/uses_both (two never-inlined Destruct impls, values dropped at the same point), by the warm-up permutation alone (2 workers, no prefix)"),
  "S34": ("C12", "quick", "level 1, history prefix compiling one caller first"),
@@ -43,7 +43,7 @@ DETECTION = {
  "S38": ("C12", "quick", "level 1, project dapp (three components sharing the storage name nonce): the colliding-path warning names another pair after one prefix op"),
  "S39": ("C13", "quick", "needed two additions: the edit that toggles #[flat] / #[key] on event fields (change_attribute) and the contract classes (ABI, entry points) as part of the C13 observable for Starknet projects; 3-op history on dapp: ABI keeps the old event kind"),
  "S40": ("C13", "quick", "add_variant_or_member / rename on a struct with derived PartialEq: stale generated impl (Sierra differs or a member-not-found error)"),
- "S41": ("C13", "thorough", "missed at first (no item-level macro whose plugin diagnostic has an inner span); after compile_error!(3 + 4) in errors/dup.cairo and the snerrors project (component! argument errors) thorough reports a stale column after shift_space_in_line; the 128 short histories of quick miss it with the default seed"),
+ "S41": ("C13", "quick", "(quick since it runs 256 histories; thorough only while quick ran 48-128) missed at first (no item-level macro whose plugin diagnostic has an inner span); after compile_error!(3 + 4) in errors/dup.cairo and the snerrors project (component! argument errors) thorough reports a stale column after shift_space_in_line; the 128 short histories of quick miss it with the default seed"),
  "S20": ("C12", "thorough", "missed at first: a process-wide static std Mutex taken with try_lock around a pure computation; contention needs a preemption inside a critical section that contains no synchronisation point shuttle controls. Caught by thorough since level 2 has the allocator-driven preemption seam (a task can lose the processor k allocations after a query event): Sierra of the circuits project differs under a PCT/random schedule with 8 workers, replayable. Before level-1 runs were isolated in child processes the harness's own worker threads contended on that static and produced a difference that did not replay (reported as a harness error, exit 2) - which is why every run now executes in its own process."),
 }
 for d in sorted(glob.glob(os.path.join(ROOT, "seeded", "S*"))):
